@@ -40,7 +40,11 @@ def setup(ctx):
 
 # ---- snapshots ---------------------------------------------------------------------------------------------
 def snap_exact(P):
-    return {"kind": "exact", "hom": P.hom_deg, "cp": [[[float(x), float(y)] for x, y in dp] for dp in P.critical_pairs]}
+    cp = P.critical_pairs
+    if not cp and len(P.dgms):        # lazily created and not evaluated yet: the function it denotes is its diagram's landscape
+        twin = PLE(dgms=[np.array(P.dgms, dtype=float)], hom_deg=0)
+        cp = twin.critical_pairs
+    return {"kind": "exact", "hom": P.hom_deg, "cp": [[[float(x), float(y)] for x, y in dp] for dp in cp]}
 
 
 def snap_grid(P):
@@ -137,7 +141,9 @@ def new_exact(rng):
     if rng.random() < 0.5:
         bars, _ = gen_bars(rng)
         bars = bars[:6]
-        P = PLE(dgms=[bars] * (hom + 1), hom_deg=hom)
+        # a third of the diagram-built operands are created lazily (compute=False): nothing has evaluated them when they are
+        # first used as an operand
+        P = PLE(dgms=[bars] * (hom + 1), hom_deg=hom, compute=bool(rng.random() < 0.67))
     else:
         P = PLE(critical_pairs=gen_cp(rng), hom_deg=hom)
     return P
